@@ -130,9 +130,15 @@ func c13Lexical(t *rapid.T) *DCase {
 			stmts = append(stmts, ast.Print(ast.Str("before")), ast.Print(bad))
 		case 7:
 			// quoted object keys are string literals too
-			key := rapid.SampledFrom([]string{"a\\tb", "q\\\\", "line\\nbreak", "plain", "it's", "two words", ""}).Draw(t, "qkey")
-			stmts = append(stmts, ast.ExprS(ast.Set(ast.Id("qo"), ast.Obj(ast.KVs(key, num()), ast.KV("plain2", num())))),
-				ast.Print(ast.Idx(ast.Id("qo"), ast.Str(key)), ast.Idx(ast.Id("qo"), ast.Str("a\\\\tb"))))
+			key := rapid.SampledFrom([]string{"a\\tb", "q\\\\", "line\\nbreak", "plain", "it's", "two words", "", "a\\\\tb", "c:\\\\new\\\\n", "\\\\\\\\"}).Draw(t, "qkey")
+			mk := []*ast.Node{ast.ExprS(ast.Set(ast.Id("qo"), ast.Obj(ast.KVs(key, num()), ast.KV("plain2", num())))),
+				ast.Print(ast.Idx(ast.Id("qo"), ast.Str(key)), ast.Idx(ast.Id("qo"), ast.Str("a\\\\tb")), ast.Id("qo"))}
+			if n(0, 1, "keytwice") == 0 {
+				// the same literal evaluated again: the key denotes the same characters every time
+				stmts = append(stmts, ast.For(ast.Set(ast.Id("qi"), ast.Num("0")), ast.Bin("<", ast.Id("qi"), ast.Num("3")), ast.Post("++", ast.Id("qi")), ast.Block(mk...)))
+			} else {
+				stmts = append(stmts, mk...)
+			}
 			if n(0, 3, "badkey") == 0 {
 				stmts = append(stmts, ast.Print(ast.Str("before-bad-key")), ast.ExprS(ast.Set(ast.Id("qo"), ast.Obj(ast.KVs(rapid.SampledFrom([]string{"\\q", "x\\"}).Draw(t, "badqkey"), num())))))
 			}
